@@ -641,7 +641,12 @@ func (f *frame) havocItem(item string, env *specEnv, key string) {
 			continue
 		}
 		nv := c.fresh(mk.key+"~callv", arrayElemSort(srt))
-		c.heapSet(f.heap, mk.key, store(arr, mk.at, nv))
+		if strings.HasPrefix(mk.key, "E ") {
+			// s[*] of a nil slice: there is no backing array to modify
+			c.heapSet(f.heap, mk.key, ite(eq(mk.at, tNil), arr, store(arr, mk.at, nv)))
+		} else {
+			c.heapSet(f.heap, mk.key, store(arr, mk.at, nv))
+		}
 	}
 }
 
